@@ -215,6 +215,12 @@ func (e *c10exec) exec(in ref.Instr, xs []tensor.Tensor) (t tensor.Tensor, err e
 			ts := append([]tensor.Tensor(nil), xs...)
 			t, err = tensor.Concat(ts, in.Dim)
 			e.kinds["Concat"]++
+			for i := range xs { // the list is the caller's: the library reads it, it does not rearrange it
+				if ts[i] != xs[i] {
+					e.k.Failf("Concat modified the caller's tensor list: entry %d of %d now holds another tensor", i, len(xs))
+					return
+				}
+			}
 			if e.scribble {
 				for i := range ts {
 					switch e.k.Rng.Intn(3) {
@@ -616,6 +622,115 @@ func runC10(c *fw.Ctx) {
 	for i := 0; i < c.Pick(600, 12000); i++ {
 		c.Case(func(k *fw.K) { c10HeldParameters(k) })
 	}
+	for i := 0; i < c.Pick(400, 8000); i++ {
+		c.Case(func(k *fw.K) { c10RecycledBuffers(k) })
+	}
+}
+
+// c10RecycledBuffers: the caller keeps ONE dims buffer (and one nested-data buffer) and refills it for every constructor
+// call, the way a loop over layer sizes does. Each tensor has the shape and the elements requested at its own call - whatever
+// the buffer held before or holds afterwards - and earlier tensors are unaffected by later calls.
+func c10RecycledBuffers(k *fw.K) {
+	r := k.Rng
+	rank := 1 + r.Intn(3)
+	buf := make([]int, rank)
+	ctor := r.Intn(6)
+	val := []float64{0, 1, 0.5, -2}[r.Intn(4)]
+	name := []string{"Zeros", "Ones", "Full", "RandU", "RandN", "TensorOf"}[ctor]
+	type made struct {
+		t     tensor.Tensor
+		shape []int
+		bits  []uint64
+	}
+	var all []made
+	calls := 3 + r.Intn(6)
+	var data [][]float64
+	for q := 0; q < calls; q++ {
+		shape := RandShape(r, rank, rank, 4)
+		if q > 0 && r.Intn(3) == 0 {
+			shape = ref.CopyInts(all[r.Intn(len(all))].shape) // an earlier shape again
+		}
+		copy(buf, shape)
+		conf := rt.Conf(r.Intn(3) == 0)
+		var t tensor.Tensor
+		var err error
+		pn := call(func() {
+			switch ctor {
+			case 0:
+				t, err = tensor.Zeros(buf, conf)
+			case 1:
+				t, err = tensor.Ones(buf, conf)
+			case 2:
+				t, err = tensor.Full(buf, val, conf)
+			case 3:
+				t, err = tensor.RandU(buf, -1, 1, conf)
+			case 4:
+				t, err = tensor.RandN(buf, 0, 1, conf)
+			default: // one nested buffer, re-sliced and refilled: [rows][cols]
+				rows, cols := 1+r.Intn(4), 1+r.Intn(4)
+				shape = []int{rows, cols}
+				if data == nil {
+					data = make([][]float64, 4)
+					for i := range data {
+						data[i] = make([]float64, 4)
+					}
+				}
+				view := make([][]float64, rows)
+				for i := range view {
+					view[i] = data[i][:cols]
+					for j := range view[i] {
+						view[i][j] = float64(100*q+10*i+j) + 0.5
+					}
+				}
+				t, err = tensor.TensorOf(view, conf)
+			}
+		})
+		if pn != nil || err != nil || t == nil {
+			k.Failf("%s call %d with the recycled buffer holding %v: panic=%v err=%v", name, q, shape, pn, err)
+			return
+		}
+		sh, bits, err := bitsOf(t)
+		if err != nil || !ref.SameShape(sh, shape) || len(bits) != ref.Prod(shape) || t.NElems() != ref.Prod(shape) {
+			k.Failf("%s call %d with the recycled buffer holding %v: the result has shape %v, %d readable elements, NElems %d (%v)", name, q, shape, sh, len(bits), t.NElems(), err)
+			return
+		}
+		for i, b := range bits {
+			v := math.Float64frombits(b)
+			want, decided := 0., true
+			switch ctor {
+			case 0:
+				want = 0
+			case 1:
+				want = 1
+			case 2:
+				want = val
+			case 5:
+				want = float64(100*q+10*(i/shape[1])+i%shape[1]) + 0.5
+			default:
+				decided = false
+			}
+			if decided && v != want {
+				k.Failf("%s call %d with the recycled buffer holding %v: element %d is %v, requested %v", name, q, shape, i, v, want)
+				return
+			}
+		}
+		if ctor <= 2 {
+			if sum := t.Sum(); sum != val*float64(ref.Prod(shape)) && ctor == 2 || ctor == 1 && sum != float64(ref.Prod(shape)) || ctor == 0 && sum != 0 {
+				k.Failf("%s call %d with the recycled buffer holding %v: Sum() = %v over %d elements", name, q, shape, sum, ref.Prod(shape))
+				return
+			}
+		}
+		all = append(all, made{t, ref.CopyInts(shape), bits})
+		for j, m := range all { // every earlier tensor is what it was
+			sh, bits, err := bitsOf(m.t)
+			if err != nil || !ref.SameShape(sh, m.shape) || !sameBits(bits, m.bits) {
+				k.Failf("%s: the tensor of call %d (shape %v) changed after call %d refilled the caller's buffer with %v: shape %v (%v)", name, j, m.shape, q, shape, sh, err)
+				return
+			}
+		}
+	}
+	k.Key("recycled-buffer/%s/rank%d/%d-calls", name, rank, calls)
+	k.Count("recycled_buffer_constructor_calls", int64(calls))
 }
 
 // scribbleInit is an initializer that overwrites the shape slice the library handed to it.
